@@ -105,6 +105,9 @@ void ResolutionProof::endChain(CRef conclusion)
       assert(!current_chain.isEmpty());
       assert(current_chain.ref == 0);
       current_chain.type = clause_type::CLA_LEARNT;
+      // A refutation stored earlier (e.g. of a frame popped since) must not shadow the new one:
+      // emplace would keep the old entry.
+      if ( conclusion == CRef_Undef ) { clause_to_proof_der.erase( CRef_Undef ); }
       assert( clause_to_proof_der.find( conclusion ) == clause_to_proof_der.end( ) );
       // Create association between res and it's derivation chain
       clause_to_proof_der.emplace(conclusion, std::move(current_chain));
